@@ -55,8 +55,6 @@ func NewInstance(engine engine.Engine, id key.TargetID, charInfo info.Character)
 		point:       0,
 	}
 	engine.Events().ActionEnd.Subscribe(c.E6ActionEndListener)
-	c.initSkill()
-	c.initTalent()
 	c.initTraces()
 	return c
 }
